@@ -155,8 +155,16 @@ func (t *tailBuf) Write(p []byte) (int, error) {
 func (t *tailBuf) headMode() { t.mu.Lock(); t.buf, t.head = nil, true; t.mu.Unlock() }
 func (t *tailBuf) String() string { t.mu.Lock(); defer t.mu.Unlock(); return string(t.buf) }
 
-func startWorker(self string) (*poolWorker, error) {
+// startWorker starts one worker process whose temp directory is tmp (a directory no other worker uses).
+func startWorker(self, tmp string) (*poolWorker, error) {
 	cmd := exec.Command(self, "-worker", "script")
+	if tmp != "" {
+		os.RemoveAll(tmp) // what a killed predecessor left behind
+		if err := os.MkdirAll(tmp, 0o755); err != nil {
+			return nil, err
+		}
+		cmd.Env = append(os.Environ(), "TMPDIR="+tmp)
+	}
 	stdin, err := cmd.StdinPipe()
 	if err != nil {
 		return nil, err
@@ -196,12 +204,20 @@ func RunJobs(self string, jobs []Job, n int, limit time.Duration) ([]JobResult, 
 		n = len(jobs)
 	}
 	res := make([]JobResult, len(jobs))
+	// one temp directory per worker, removed with the pool: the interpreter under test looks at the directory
+	// of the file it parses (annotation-driven scans, require relative to __DIR__), so workers must not share one
+	poolTmp, err := os.MkdirTemp("", "verif-pool-")
+	if err != nil {
+		return nil, err
+	}
+	defer os.RemoveAll(poolTmp)
 	var next int
 	var mu sync.Mutex
 	var wg sync.WaitGroup
 	var firstErr error
 	for wi := 0; wi < n; wi++ {
 		wg.Add(1)
+		wtmp := fmt.Sprintf("%s/w%d", poolTmp, wi)
 		go func() {
 			defer wg.Done()
 			var w *poolWorker
@@ -216,7 +232,7 @@ func RunJobs(self string, jobs []Job, n int, limit time.Duration) ([]JobResult, 
 				}
 				if w == nil {
 					var err error
-					if w, err = startWorker(self); err != nil {
+					if w, err = startWorker(self, wtmp); err != nil {
 						mu.Lock()
 						firstErr = err
 						mu.Unlock()
